@@ -24,15 +24,14 @@ Fixpoint row_sem (r : list plane) (vs : list bool) : bool :=
 Definition cover_sem (rows : list (list plane)) (vs : list bool) : bool :=
   existsb (fun r => row_sem r vs) rows.
 
-(* Well-formed .names: n input signals + 1 output, every row n wide; a cover
-   with inputs has at least one row, a constant cover at most one. *)
+(* Well-formed .names: n input signals + 1 output, every row n wide (no rows
+   at all = constant 0, at any n); a constant cover (n = 0) has at most one row. *)
 Definition cover_wf (sigs : list sig) (rows : list (list plane)) : bool :=
   match sigs with
   | [] => false
   | _ => let n := (List.length sigs - 1)%nat in
          forallb (fun r => Nat.eqb (List.length r) n) rows
-         && (if Nat.eqb n 0 then Nat.leb (List.length rows) 1
-             else negb (Nat.eqb (List.length rows) 0))
+         && (if Nat.eqb n 0 then Nat.leb (List.length rows) 1 else true)
   end.
 
 (* ---------- flip-flop cells, by DECODING THE CELL NAME ----------
